@@ -42,6 +42,8 @@ def generate(tier, rng):
                         v.ser = ['s%d' % i]
                         v.ts = 't%d' % i
                     v.dis = (mode == 'mixed' and (i + k) % 5 == 0 and nvar > 1)
+                    if v.dis:
+                        v.attr_layout = ['rev', 'one', 'revsplit', 'split'][(i + k // 5) % 4]   # items before AND after `disabled`
                     e.variants.append(v)
                 if e.generics == 'ty':
                     tv = [v for v in e.variants if v.kind == 'tuple' and v.ftypes]
@@ -71,7 +73,12 @@ def generate(tier, rng):
             if 'doc' in combo:
                 v.docs = [' doc %d' % pos, ' second line'][:1 + pos % 2]
             v.dis = (pos == j % 3)
-            v.attr_layout = ['one', 'split'][(pos + j) % 2]
+            # spellings too (get_serializations answers for disabled variants), written before AND after `disabled`
+            if (pos + j) % 3 != 2:
+                v.ser = ['sp-%d' % pos, 'spelling-%d-long' % pos][:1 + (pos + j) % 2]
+            if (pos + j) % 4 == 1:
+                v.ts = 'shown %d' % pos
+            v.attr_layout = ['one', 'split', 'rev', 'revsplit'][(pos + j) % 4]
             e.variants.append(v)
         e.extra['shape'] = 'disabled-with-%s' % '+'.join(combo)
         c.add(e)
